@@ -274,7 +274,9 @@ def check_market_data(md, E):
 def env_arrays(hid, idx, op, e, rust, E, numpy_env=None):
     """C19: arrays, dictionaries — each element against the documented quantity taken from the Rust core."""
     c2 = parse_l2(E["c2"])
-    tv = int(rust["tv"])
+    # index 0 is documented as "trade volume (in the last step)": the last entry of the per-step series the core
+    # recorded (itself reconciled with the trade log by C11), 0 before the first step - not the book's running counter
+    tv = int(E["tvs"].split(",")[-1]) if E["tvs"] not in ("-", "") else 0
     bad = []
     l1 = [int(x) for x in e.level_1_data_array()]
     l2 = [int(x) for x in e.level_2_data_array()]
